@@ -166,6 +166,16 @@ void callback_fn(metrics_api::ObserverResult result, void *state)
     std::map<std::string, common::AttributeValue> attrs{{"cb", (int64_t)st->slot}, {"s", s_value(set)}};
     common::KeyValueIterableView<std::map<std::string, common::AttributeValue>> view(attrs);
     bool bare = no_attr_series(st->slot, set);
+    // a quarter of the observations are preceded, in the same invocation, by a provisional
+    // value for the same attribute set: the value observed last is the one that counts
+    for (int pass = ((n + st->slot + set) % 4 == 0) ? 0 : 1; pass < 2; ++pass)
+    {
+    int64_t v_final = v;
+    if (pass == 0)
+    {
+      v = v_final + 4242;
+      vsim::probe("async.observed_twice_in_one_callback");
+    }
     if (nostd::holds_alternative<nostd::shared_ptr<metrics_api::ObserverResultT<int64_t>>>(result))
     {
       auto &r = nostd::get<nostd::shared_ptr<metrics_api::ObserverResultT<int64_t>>>(result);
@@ -190,6 +200,8 @@ void callback_fn(metrics_api::ObserverResult result, void *state)
       }
       else
         bare ? r->Observe((double)v) : r->Observe((double)v, view);
+    }
+    v = v_final;
     }
   }
   vsim::yield();
